@@ -579,10 +579,18 @@ def o3b(prog: Program, chk: Check) -> None:
             ok, "" if ok else "step / post are not forwarded unchanged")
 
 
-def _rounds_in(unit_node: ast.AST) -> List[ast.Call]:
-    return [c for c in ast.walk(unit_node) if isinstance(c, ast.Call)
-            and (dotted(c.func) or "").split(".")[-1] in ("round", "rint", "around") and c.args
-            and any(isinstance(x, ast.BinOp) and isinstance(x.op, ast.Div) for x in ast.walk(c.args[0]))]
+def _rounds_in(unit_node: ast.AST, du: Optional[DefUse] = None) -> List[ast.Call]:
+    from oqv.dataflow import expand
+    out = []
+    for c in ast.walk(unit_node):
+        if isinstance(c, ast.Call) and (dotted(c.func) or "").split(".")[-1] in \
+                ("round", "rint", "around") and c.args:
+            arg = c.args[0]
+            if du is not None and du.node_of(c) is not None:
+                arg = expand(du, du.node_of(c), arg)       # the quotient may sit in a temporary
+            if any(isinstance(x, ast.BinOp) and isinstance(x.op, ast.Div) for x in ast.walk(arg)):
+                out.append(c)
+    return out
 
 
 _PROG = {}
@@ -606,10 +614,10 @@ def _is_rounded_relative_time(du: DefUse, nid: int, e: ast.AST) -> Tuple[bool, s
         ci = prog.class_of_unit(du.unit)
         hu = prog.find_method(ci, method_call(e0)[1]) if ci else None
         if hu is not None:
-            rs = _rounds_in(hu.node)
+            hdu = DefUse(hu, CFG(hu.node, exc_edges=False))
+            rs = _rounds_in(hu.node, hdu)
             if not rs:
                 return False, f"helper {hu.name} does not round a time quotient"
-            hdu = DefUse(hu, CFG(hu.node, exc_edges=False))
             for r in rs:
                 ok, why = _round_form_ok(hdu, r)
                 if not ok:
